@@ -146,7 +146,12 @@ def generate(rng, tier="quick"):
     # called many times with shared parameter objects and near-duplicate inputs
     k = rng.weighted([(1, 30), (2, 20), (3, 15), (len(names), 35)])
     names = sorted(rng.sample(names, k))
-    mix = rng.pick(([("call", 6), ("repeat", 2), ("same_params", 2)], [("call", 3), ("repeat", 2), ("same_params", 5)]))
+    mix = rng.pick(
+        (
+            [("call", 6), ("repeat", 2), ("same_params", 2), ("mutate", 1), ("bad_add", 1)],
+            [("call", 3), ("repeat", 2), ("same_params", 4), ("mutate", 3), ("bad_add", 1)],
+        ),
+    )
     for _ in range(rng.randint(1, 30 if tier == "thorough" else 14)):
         kind = rng.weighted(mix)
         dirty = {"pattern": rng.weighted([("off", 1), ("flag", 5), ("ff", 2)]), "byte": rng.pick((1, 2, 3, 4, 9, 0, 255))}
@@ -160,6 +165,21 @@ def generate(rng, tier="quick"):
             calls.append(len(ops))
         elif kind == "repeat":
             op = {"op": "repeat", "of": rng.pick(calls), "dirty": dirty}
+        elif kind == "mutate":
+            # the caller overwrites its own buffers in place and calls again with the very same objects
+            of = rng.pick(calls)
+            src = ops[of]
+            data = perturb_data(rng, src["data"])
+            if any(len(data[k]["values"]) != len(src["data"][k]["values"]) for k in data) or any(v["carrier"] in ("dt64_nat",) for v in data.values()):
+                op = {"op": "repeat", "of": of, "dirty": dirty}
+            else:
+                op = {"op": "mutate", "of": of, "fn": src["fn"], "data": data, "dirty": dirty}
+        elif kind == "bad_add":
+            cl = [j for j in calls if ops[j]["fn"] == "climatology_test" and ops[j]["params"].get("__as_object__")]
+            if cl:
+                op = {"op": "bad_add", "of": rng.pick(cl), "member": rng.pick(({"tspan": [1, 6], "vspan": [0, 1], "period": "fortnight"}, {"tspan": [1, 6, 7], "vspan": [0, 1], "period": "month"}, {"tspan": [1, 6], "vspan": [0], "period": "month"})), "dirty": dirty}
+            else:
+                op = {"op": "repeat", "of": rng.pick(calls), "dirty": dirty}
         else:
             of = rng.pick(calls)
             fn = ops[of]["fn"]
@@ -286,9 +306,30 @@ def run_history(scn):
             p = build_params(op["fn"], op["params"])
             objs[i] = (op["fn"], d, p)
         elif op["op"] == "repeat":
-            objs[i] = objs[resolve(scn, op["of"])]
+            objs[i] = objs[op["of"]]
+        elif op["op"] == "mutate":
+            fn, d, p = objs[op["of"]]
+            for k, spec in op["data"].items():
+                new = build_series(spec)
+                if isinstance(d[k], list):
+                    d[k][:] = new
+                elif isinstance(d[k], np.ma.MaskedArray):
+                    d[k][:] = new  # data and mask
+                else:
+                    d[k][...] = new
+            objs[i] = (fn, d, p)
+        elif op["op"] == "bad_add":
+            fn, d, p = objs[op["of"]]
+            try:
+                p["config"].add(**op["member"])
+                recs.append({"exc": None, "out": None, "shape": None, "changed": [], "bad_add": "accepted"})
+            except Exception as e:  # noqa: BLE001 - the rejection is expected; what it leaves behind is what matters
+                recs.append({"exc": None, "out": None, "shape": None, "changed": [], "bad_add": type(e).__name__})
+            outs.append((None, None))
+            objs[i] = (fn, d, p)
+            continue
         else:  # same_params: new data, the parameter objects of an earlier call
-            fn, _, p = objs[resolve(scn, op["of"])]
+            fn, _, p = objs[op["of"]]
             objs[i] = (fn, {k: build_series(v) for k, v in op["data"].items()}, p)
         fn, d, p = objs[i]
         rec, res = call_once(fn, d, p)
@@ -298,21 +339,39 @@ def run_history(scn):
     return {"recs": recs, "stale": stale}
 
 
-def resolve(scn, i):
-    while scn["ops"][i]["op"] == "repeat":
-        i = scn["ops"][i]["of"]
+def data_root(scn, i):
+    """The op that created the data objects op i works on."""
+    op = scn["ops"][i]
+    while op["op"] in ("repeat", "mutate", "bad_add"):
+        i = op["of"]
+        op = scn["ops"][i]
     return i
+
+
+def param_root(scn, i):
+    """The call that created the parameter objects op i works with."""
+    op = scn["ops"][i]
+    while op["op"] != "call":
+        i = op["of"]
+        op = scn["ops"][i]
+    return i
+
+
+def data_source(scn, i):
+    """The op whose data spec describes the current content of op i's data objects:
+    the latest in-place mutation of those objects up to i, else the op that built them."""
+    dr = data_root(scn, i)
+    src = dr
+    for k in range(dr + 1, i + 1):
+        if scn["ops"][k]["op"] == "mutate" and data_root(scn, k) == dr:
+            src = k
+    return src
 
 
 def effective(scn, i):
     """The (fn, data spec, params spec) an op amounts to."""
-    op = scn["ops"][i]
-    if op["op"] == "call":
-        return op["fn"], op["data"], op["params"]
-    if op["op"] == "repeat":
-        return effective(scn, op["of"])
-    fn, _, params = effective(scn, op["of"])
-    return fn, op["data"], params
+    pr = scn["ops"][param_root(scn, i)]
+    return pr["fn"], scn["ops"][data_source(scn, i)]["data"], pr["params"]
 
 
 def run_reference(scn, i):
@@ -392,6 +451,12 @@ def execute(scn):
     refs = {}
     events = []
     for i, op in enumerate(scn["ops"]):
+        bump(f"op_{op['op']}")
+        if op["op"] == "bad_add":
+            # a rejected ClimatologyConfig.add(): nothing is called; what it leaves on the object shows in later ops
+            events.append(("bad_add", hist["recs"][i].get("bad_add")))
+            stats["faults"]["rejected-add"] = stats["faults"].get("rejected-add", 0) + 1
+            continue
         stats["calls"] += 1
         fn, data, params = effective(scn, i)
         rec = hist["recs"][i]
@@ -399,7 +464,6 @@ def execute(scn):
         first = data.get("inp", data.get("lon"))
         n = len(first["values"])
         events.append((op["op"], fn, n))
-        bump(f"op_{op['op']}")
         if n <= 2:
             bump(f"n_le_2")
         key = digest([fn, data, params])
@@ -433,11 +497,18 @@ def execute(scn):
         elif (rec["exc"] is None) != (ref["exc"] is None):
             V.append(violation(PROP, "e", comp, f"raises-only-{'in-history' if rec['exc'] else 'when-pristine'}:{op['op']}", f"op {i}: history {rec['exc']} pristine {ref['exc']}"))
         if op["op"] == "repeat":
-            orig = hist["recs"][resolve(scn, op["of"])]
-            if orig["out"] != rec["out"] or orig["exc"] != rec["exc"]:
-                V.append(violation(PROP, "e", comp, "repeat-differs", f"op {i} repeats op {op['of']}: {orig['out']} then {rec['out']}"))
-            else:
-                bump("repeat_same")
+            # the previous call on the very same objects holding the very same values
+            prev = [
+                j
+                for j in range(i)
+                if scn["ops"][j]["op"] != "bad_add" and data_root(scn, j) == data_root(scn, i) and param_root(scn, j) == param_root(scn, i) and data_source(scn, j) == data_source(scn, i)
+            ]
+            if prev:
+                orig = hist["recs"][prev[-1]]
+                if orig["out"] != rec["out"] or orig["exc"] != rec["exc"]:
+                    V.append(violation(PROP, "e", comp, "repeat-differs", f"op {i} repeats op {prev[-1]}: {orig['out']} then {rec['out']}"))
+                else:
+                    bump("repeat_same")
     for i in hist["stale"]:
         fn = effective(scn, i)[0]
         V.append(violation(PROP, "e", f"{FUNCS[fn][0]}.{fn}", "earlier-output-changed-later", f"output of op {i} was modified by a later call"))
@@ -463,13 +534,13 @@ def candidates(scn):
             if j == idx:
                 continue
             op = copy.deepcopy(op)
-            if op["op"] in ("repeat", "same_params") and op["of"] == idx:
+            if op["op"] in ("repeat", "same_params", "mutate", "bad_add") and op["of"] == idx:
                 fn, data, params = effective(scn, j)
                 op = {"op": "call", "fn": fn, "data": copy.deepcopy(data), "params": copy.deepcopy(params), "dirty": op.get("dirty")}
             mapping[j] = len(new)
             new.append(op)
         for op in new:
-            if op["op"] in ("repeat", "same_params"):
+            if op["op"] in ("repeat", "same_params", "mutate", "bad_add"):
                 op["of"] = mapping[op["of"]]
         c = copy.deepcopy(scn)
         c["ops"] = new
@@ -479,7 +550,7 @@ def candidates(scn):
         for i in range(n - 1, -1, -1):
             yield drop(i)
     for i, op in enumerate(ops):
-        if op["op"] in ("call", "same_params"):
+        if op["op"] in ("call", "same_params") and not any(o.get("of") == i and o["op"] == "mutate" for o in ops):
             data = op["data"]
             m = len(next(iter(data.values()))["values"])
             if m > 0:
